@@ -29,7 +29,7 @@ def _named(clauses):
 class Contract:
     def __init__(self, key, params=None, returns=None, requires=None, ensures=None, modifies=None,
                  raises=None, loops=None, ghost=None, inline=False, pure=False, assumed=False,
-                 ensures_raise=None, locals=None, note="", fresh_result=False, props=(), call_sites=None, hints=None):
+                 ensures_raise=None, locals=None, note="", fresh_result=False, props=(), call_sites=None, hints=None, rt_trace=False):
         self.key = key
         self.params = {k: parse_type(v) for k, v in (params or {}).items()}
         self.returns = parse_type(returns) if returns is not None else None
@@ -51,6 +51,7 @@ class Contract:
         self.fresh_result = fresh_result
         self.props = tuple(props)
         self.hints = _named(hints)
+        self.rt_trace = rt_trace  # output-trace clauses are comparable at run time (no printing callees)
         self.call_sites = {k: _named(v) for k, v in (call_sites or {}).items()}
 
 
